@@ -1,7 +1,7 @@
-CONSTANTS Names = {"a", "b"} MaxSteps = 7
+CONSTANTS Names = {"a", "b"} MaxSteps = 7 MaxFails = 1
 SPECIFICATION Spec
 INVARIANTS OpenIffRefs ClosedExactlyOnce DropAtMostOncePerOpen
-PROPERTIES CloseAtLastRef ExtraCloseIsError OneUnderlyingOpenPerGeneration
+PROPERTIES CloseAtLastRef ExtraCloseIsError OneUnderlyingOpenPerGeneration FailedOpenIsNeutral
 VIEW View
 ACTION_CONSTRAINT Emit
 CHECK_DEADLOCK FALSE
